@@ -17,6 +17,9 @@ use std::path::Path;
 
 pub const HEADER: &str = "From Coq Require Import List NArith String.\nFrom V Require Import Base.Util Base.Result Model.Registry Model.Settings Model.Subst Model.Builders Corr.RunTG Corr.CheckTG.\nImport ListNotations. Open Scope string_scope.";
 
+/// C17: the pair wrapped with the artefacts of the description crate for retained ids (Corr/RunC17.v)
+pub const HEADER_C17: &str = "From Coq Require Import List NArith ZArith String.\nFrom V Require Import Model.RngWords Model.ExampleValue.\nFrom V Require Import Base.Util Base.Result Model.Registry Model.Settings Model.Subst Model.Builders Corr.RunTG Corr.CheckTG Corr.RunC17.\nImport ListNotations. Open Scope string_scope.";
+
 pub struct TgObs {
     pub outs: Vec<sets::Outcome>,
     pub gen: Obs<Vec<String>>,
@@ -320,12 +323,19 @@ pub struct Ctx {
     pub nontrivial: usize,
     pub kinds: std::collections::BTreeMap<String, usize>,
     pub sizes: [usize; 5],
+    /// C17: every pair is wrapped into a `c17_case`
+    pub c17: bool,
+    pub c17_counts: crate::c17::Counts,
 }
 
 impl Ctx {
     pub fn new(prop: &str, out: &Path, nshards: usize, evals: &[(&str, &str)], pair: bool) -> Self {
+        let c17 = prop == "C17";
         Ctx {
-            shards: Shards::new(out, nshards, HEADER, if pair { "tg_pair" } else { "tg_case" }, evals),
+            c17,
+            c17_counts: Default::default(),
+            shards: Shards::new(out, nshards, if c17 { HEADER_C17 } else { HEADER },
+                                if c17 { "c17_case" } else if pair { "tg_pair" } else { "tg_case" }, evals),
             meta: Meta::new(prop),
             seen: HashSet::new(),
             nontrivial: 0,
@@ -380,15 +390,40 @@ impl Ctx {
     /// `perm[j]` = position in `a` of the entry at position `j` of `b` (kind "renumbered")
     pub fn push_pair_perm(&mut self, stream: &str, kind: &str,
                           a: (&PortableRegistry, &SettingsSpec), b: (&PortableRegistry, &SettingsSpec), perm: &[usize]) {
+        self.push_pair_full(stream, kind, a, b, perm, None)
+    }
+
+    /// (registry, `retain`-ed registry) with the id map of the retained ids to observe (C17)
+    pub fn push_pair_retain(&mut self, stream: &str,
+                            a: (&PortableRegistry, &SettingsSpec), b: (&PortableRegistry, &SettingsSpec),
+                            info: &crate::c17::RetainInfo) {
+        self.push_pair_full(stream, "retain", a, b, &[], Some(info))
+    }
+
+    pub fn push_pair_full(&mut self, stream: &str, kind: &str,
+                          a: (&PortableRegistry, &SettingsSpec), b: (&PortableRegistry, &SettingsSpec), perm: &[usize],
+                          retain: Option<&crate::c17::RetainInfo>) {
         let oa = observe_tg(a.0, a.1);
         let ob = observe_tg(b.0, b.1);
-        let term = format!(
+        let mut term = format!(
             "(mk_pair {} {} {} {})",
             crate::coq::cstr(kind),
             coq_case(stream, a.0, a.1, &oa, &None),
             coq_case(stream, b.0, b.1, &ob, &None),
             clist(perm.iter().map(|x| crate::coq::cn(*x as u128)))
         );
+        let arts = match retain {
+            Some(info) if self.c17 => {
+                let x = crate::c17::observe(a.0, b.0, info);
+                self.c17_counts.add(&x, b.0.types.len());
+                x
+            }
+            _ => crate::c17::Arts::empty(),
+        };
+        if self.c17 {
+            let (seeds, l) = arts.coq();
+            term = format!("(mk_c17 {} {} {})", term, seeds, l);
+        }
         let n = a.0.types.len();
         self.sizes[match n { 0..=3 => 0, 4..=10 => 1, 11..=30 => 2, 31..=100 => 3, _ => 4 }] += 1;
         *self.kinds.entry(format!("{}/{}", oa.gen.kind(), ob.gen.kind())).or_insert(0) += 1;
@@ -399,13 +434,19 @@ impl Ctx {
             self.nontrivial += 1;
         }
         let small = n <= 12;
-        let input = json!({"pair_kind": kind, "perm": perm, "a": {"registry": ra, "settings": a.1}, "b": {"registry": rb, "settings": b.1}});
-        let j = if small {
+        let mut input = json!({"pair_kind": kind, "perm": perm, "a": {"registry": ra, "settings": a.1}, "b": {"registry": rb, "settings": b.1}});
+        if let Some(info) = retain {
+            input["retain"] = info.json();
+        }
+        let mut j = if small {
             json!({"stream": stream, "input": input,
                    "observed_a": oa.gen.json(|t| json!(t.join(" "))), "observed_b": ob.gen.json(|t| json!(t.join(" ")))})
         } else {
             json!({"stream": stream, "input": input, "observed_kinds": [oa.gen.kind(), ob.gen.kind()]})
         };
+        if retain.is_some() && self.c17 {
+            j["observed_retained_artefacts"] = arts.json(true);
+        }
         let i = self.shards.push(term, j.clone());
         self.meta.count(stream);
         if small && self.meta.samples.len() < 3 && i % 37 == 5 {
@@ -419,6 +460,9 @@ impl Ctx {
         self.meta.rule = rule.to_string();
         self.meta.extra = json!({"generate_outcome_kinds": self.kinds,
                                  "registry_size_histogram(0-3,4-10,11-30,31-100,>100)": self.sizes.to_vec()});
+        if self.c17 {
+            self.meta.extra["retain"] = self.c17_counts.json();
+        }
         self.shards.finish();
         self.meta
     }
@@ -456,7 +500,8 @@ pub fn generate(prop: &str, tier: &str, seed: u64, out: &Path, nshards: usize, r
             let sa: SettingsSpec = serde_json::from_value(input["a"]["settings"].clone()).unwrap();
             let sb: SettingsSpec = serde_json::from_value(input["b"]["settings"].clone()).unwrap();
             let perm: Vec<usize> = input["perm"].as_array().map(|a| a.iter().map(|x| x.as_u64().unwrap_or(0) as usize).collect()).unwrap_or_default();
-            ctx.push_pair_perm("replay", input["pair_kind"].as_str().unwrap_or("same"), (&ra, &sa), (&rb, &sb), &perm);
+            let info = crate::c17::RetainInfo::from_json(&input["retain"]);
+            ctx.push_pair_full("replay", input["pair_kind"].as_str().unwrap_or("same"), (&ra, &sa), (&rb, &sb), &perm, info.as_ref());
         } else {
             let spec: SettingsSpec = serde_json::from_value(input["settings"].clone()).unwrap();
             let reg = reggen::to_registry(&input["registry"]);
